@@ -115,6 +115,117 @@ def impl_convs() -> str:
     return ','.join(cls_name(c) for c in registry().conventions)
 
 
+@contextlib.contextmanager
+def fake_entry_points(tokens: list, table: dict):
+    """Make `entry_point_conventions()` see the given entry points: class tokens, `!load`
+    (loading raises ImportError / AttributeError), `!notconv` (loads to a non-Convention)."""
+    import logging
+    from emsarray.conventions import _registry
+
+    class EP:
+        def __init__(self, k, tok):
+            self.name, self.value, self.tok, self.k = f'ep{k}', f'fake:{tok}', tok, k
+
+        def load(self):
+            if self.tok == '!load':
+                raise (ImportError if self.k % 2 else AttributeError)('cannot load')
+            if self.tok == '!notconv':
+                return [int, 'a string', object(), dict][self.k % 4]
+            return table[self.tok]
+
+    class FakeMetadata:
+        @staticmethod
+        def entry_points(group=None):
+            assert group == 'emsarray.conventions'
+            return [EP(k, t) for k, t in enumerate(tokens)]
+    saved = _registry.metadata
+    log = logging.getLogger(_registry.__name__)
+    was = log.disabled
+    try:
+        _registry.metadata = FakeMetadata
+        log.disabled = True
+        yield
+    finally:
+        _registry.metadata = saved
+        log.disabled = was
+
+
+def entry_point_cases(ctx, ds, recipe: dict, feat: dict, items: list) -> None:
+    """registries over arbitrary entry-point lists (order, duplicates, unusable entry points)"""
+    from emsarray.conventions import _registry
+    rng = ctx.rng
+    fl = R.fline(feat)
+    for _ in range(3):
+        syn = {str(i): list(rng.choice(R.SPEC_POOL)) for i in range(2)}
+        table = R.class_table(syn)
+        pool = R.BUILTINS + ['S0', 'S1', '!load', '!notconv']
+        eps = [rng.choice(pool) for _ in range(rng.randint(0, 7))]
+        if rng.random() < 0.5:
+            perm = list(R.BUILTINS)
+            rng.shuffle(perm)
+            eps = perm[:rng.randint(2, 6)] + eps[:3]
+        reg_tokens = [rng.choice(['S0', 'S1'] + R.BUILTINS) for _ in range(rng.choice([0, 0, 1, 2]))]
+        used = {t[1:] for t in reg_tokens + eps if t.startswith('S')}
+        syn_used = {i: v for i, v in syn.items() if i in used}
+        desc = {'recipe': recipe, 'reg': reg_tokens, 'syn': syn_used, 'eps': eps}
+        with fake_entry_points(eps, table):
+            try:
+                scanned = list(_registry.entry_point_conventions())
+                scan_out = ','.join(cls_name(c) for c in scanned) or '-'
+            except Exception:
+                scanned, scan_out = None, 'ERR'
+            reg = _registry.ConventionRegistry()
+            for t in reg_tokens:
+                reg.add_convention(table[t])
+            try:
+                ms = reg.match_conventions(ds)
+                m_out = ','.join(f'{cls_name(c)}:{int(v)}' for c, v in ms) if ms else '-'
+            except Exception:
+                ms, m_out = None, 'ERR'
+            try:
+                g = reg.guess_convention(ds)
+                g_out = 'NONE' if g is None else cls_name(g)
+            except Exception:
+                g, g_out = None, 'ERR'
+        el = 'eps=' + (','.join(eps) if eps else '-')
+        rl, sl = R.reg_line(reg_tokens), R.syn_line(syn_used)
+        line = f'scan {el}'
+        items.append((line, scan_out, {**desc, 'op': line}))
+        line = f'matchep {rl} {el} {sl} F={fl}'
+        items.append((line, m_out, {**desc, 'op': line}))
+        line = f'detectep {rl} {el} {sl} F={fl}'
+        items.append((line, g_out, {**desc, 'op': line}))
+        ctx.count('entry-point-case')
+        ctx.nontrivial(('eps', tuple(eps), tuple(reg_tokens), fl))
+        # direct oracle: each usable class once, in first-occurrence order; winner = first of maximal specificity
+        want_scan = []
+        for t in eps:
+            if not t.startswith('!') and table[t] not in want_scan:
+                want_scan.append(table[t])
+        if scanned is not None and (len(scanned) != len(want_scan) or any(a is not b for a, b in zip(scanned, want_scan))):
+            ctx.oracle_fail('entry-point-scan', {**desc, 'op': f'scan {el}'},
+                            f'entry_point_conventions() gave {scan_out}, expected {[cls_name(c) for c in want_scan]}')
+        order = []
+        for c in [table[t] for t in reg_tokens] + want_scan:
+            if c not in order:
+                order.append(c)
+        try:
+            res = [(c, c.check_dataset(ds)) for c in order]
+        except Exception:
+            res = None
+        if res is not None and g_out != 'ERR':
+            matches = [(c, v) for c, v in res if v is not None]
+            want = None
+            if matches:
+                best = max(v for _, v in matches)
+                want = next(c for c, v in matches if v == best)
+            if g is not want:
+                ctx.oracle_fail('wrong-winner', {**desc, 'op': line},
+                                f'entry points {eps}, registered {reg_tokens}: matches '
+                                f'{[(cls_name(c), int(v)) for c, v in matches]}, expected '
+                                f'{None if want is None else cls_name(want)}, got {g_out}')
+
+
 # --------------------------------------------------------------------------
 # direct property oracle for detection (independent of the Lean model)
 
@@ -577,6 +688,10 @@ def run(ctx) -> None:
         ds = R.build(recipe)
         registration_cases(ctx, ds, recipe, feat, items, exhaustive_specs=(idx < ctx.budget(2, 6)))
 
+    # ---- (4b) registries over arbitrary entry-point lists ------------------------
+    for recipe, feat, kind in reg_sample[:ctx.budget(60, 400)]:
+        entry_point_cases(ctx, R.build(recipe), recipe, feat, items)
+
     # ---- (5) histories ------------------------------------------------------------
     max_len = 12 if ctx.thorough else 8
     n_hist = ctx.budget(2000, 12000)
@@ -661,6 +776,38 @@ def run_one(ctx, inp: dict) -> dict:
     rl, sl = R.reg_line(reg_tokens), R.syn_line(syn)
     op = (inp.get('op') or 'detect').split()
     kind = op[0] if op[0] != 'propcheck' else 'detect'
+    if 'eps' in inp:
+        from emsarray.conventions import _registry
+        eps = inp['eps']
+        el = 'eps=' + (','.join(eps) if eps else '-')
+        with fake_entry_points(eps, table):
+            try:
+                out['scan impl'] = ','.join(cls_name(c) for c in _registry.entry_point_conventions()) or '-'
+            except Exception as e:  # noqa
+                out['scan impl'] = f'ERR ({type(e).__name__})'
+            reg = _registry.ConventionRegistry()
+            for t in reg_tokens:
+                reg.add_convention(table[t])
+            try:
+                ms = reg.match_conventions(ds)
+                out['all matches'] = ','.join(f'{cls_name(c)}:{int(v)}' for c, v in ms) if ms else '-'
+                g = reg.guess_convention(ds)
+                out['impl'] = 'NONE' if g is None else cls_name(g)
+            except Exception as e:  # noqa
+                out['impl'] = 'ERR'
+        if kind == 'scan':
+            out['impl'] = out['scan impl']
+            line = f'scan {el}'
+        elif kind == 'matchep':
+            out['impl'] = out.get('all matches', 'ERR')
+            line = f'matchep {rl} {el} {sl} F={fl}'
+        else:
+            line = f'detectep {rl} {el} {sl} F={fl}'
+        out['op'] = line
+        if ctx.driver:
+            out['model'] = ctx.model([line])[0]
+            out['scan model'] = ctx.model([f'scan {el}'])[0]
+        return out
     with registered([table[t] for t in reg_tokens]):
         if kind == 'check':
             line = f'check {op[1]} syn=- F={fl}'
